@@ -198,6 +198,31 @@ def cases():
     out.append(Case("HRNP", "sum", 16, (80, 96), hrnp, lambda o: bytes_to_bits(o.as_bytes()),
                     lambda b: HRNP.from_bytes(b.tobytes()), lambda o: o.checksum_correct))
 
+    def hrnp_any(r):
+        """HRNP around every HDAP family (the builders of the C12 driver): payloads whose parsers do not read their last octets,
+        length fields with low bits set - what a single inverted bit of the HRNP length field needs in order to go unnoticed"""
+        from harness.drivers import c12
+        bs = c12.builders()
+        for _ in range(200):
+            pdu = bs[r.randrange(len(bs))][2](r)
+            if len(pdu.as_bytes()) <= 56:
+                break
+        else:
+            pdu = hrnp(r).data
+        return HRNP(data=pdu, opcode=HRNPOpcodes.DATA, source=r.randrange(0x20, 0x30), destination=0x10,
+                    packet_number=r.randrange(1 << 16), block_number=r.randrange(256))
+
+    out.append(Case("HRNP/payloads", "sum", 16, (80, 96), hrnp_any, lambda o: bytes_to_bits(o.as_bytes()),
+                    lambda b: HRNP.from_bytes(b.tobytes()), lambda o: o.checksum_correct))
+
+    def hrnp_control(r):
+        """the payload-less packets of the connection handshake (the length field is the constant 12)"""
+        return HRNP(opcode=r.choice([o for o in HRNPOpcodes if o != HRNPOpcodes.DATA]), source=r.randrange(0x20, 0x30), destination=0x10,
+                    packet_number=r.randrange(1 << 16), block_number=r.randrange(256))
+
+    out.append(Case("HRNP/control", "sum", 16, (80, 96), hrnp_control, lambda o: bytes_to_bits(o.as_bytes()),
+                    lambda b: HRNP.from_bytes(b.tobytes()), lambda o: o.checksum_correct))
+
     def hrnp_updated(r):
         """the relay / reply path: a packet that was received (and verified) gets a field updated and is sent on; HRNP's
         serialiser generates the checksum over what it assembles, so the generated check field must verify again"""
